@@ -183,8 +183,9 @@ class SearcherD(object):
 class BorrowReaderD(object):
     """Reader placed inside a real AnyFileBorrower / PyFileBorrower."""
 
-    def __init__(self, trace, ident, table):
+    def __init__(self, trace, ident, table, alias=None):
         self.trace, self.ident, self.table = trace, ident, table
+        self.alias = alias      # None | 'lower': the copy is found under another spelling of the name
         self.injected = {}
 
     def __str__(self):
@@ -209,8 +210,9 @@ class BorrowReaderD(object):
             self.trace.add(comp, 'getData', 'raise', name=mibname, exc=v[1], err=exc)
             raise exc
         self.trace.add(comp, 'getData', 'ret', name=mibname, text=v)
-        return MibInfo(path='bor://%s/%s' % (self.ident, mibname), file=mibname + '.out',
-                       name=mibname, mtime=50), v
+        found = mibname.lower() if self.alias == 'lower' else mibname
+        return MibInfo(path='bor://%s/%s' % (self.ident, found), file=found + '.out',
+                       name=found, mtime=50), v
 
 
 class WriterD(object):
